@@ -298,13 +298,15 @@ pub fn monitor_c12(m: &mut Mon, w: &IncWorld, pre: &Snap, op: &Op, ok: bool, pos
     m.check(q.is_none(), &format!("flow_queries: {}", q.unwrap_or_default()));
     if !ok { return; }
     match op {
-        Op::OpenFlow { asset, .. } => {
+        Op::OpenFlow { asset, sender, .. } => {
             let f = post.flow(post.st.counter);
             m.check(f.is_some() && post.st.flows.len() == pre.st.flows.len() + 1, "open_flow succeeded but no new flow is recorded");
             if let Some(f) = f {
                 m.check(d(post.b(SELF_ID, *asset), pre.b(SELF_ID, *asset)) == f.latest().0 as i128,
                     &format!("open_funds: flow records {} but the contract received {} of the flow asset", f.latest().0, d(post.b(SELF_ID, *asset), pre.b(SELF_ID, *asset))));
-                m.check(d(post.b(COLLECTOR_ID, cfg.fee_asset), pre.b(COLLECTOR_ID, cfg.fee_asset)) == cfg.fee as i128, "open_funds: the fee collector did not receive exactly the flow creation fee");
+                // (when the fee collector itself opens the flow its fee comes straight back: all it loses is what the contract keeps for the flow)
+                let want = if *sender == COLLECTOR_ID { -d(post.b(SELF_ID, cfg.fee_asset), pre.b(SELF_ID, cfg.fee_asset)) } else { cfg.fee as i128 };
+                m.check(d(post.b(COLLECTOR_ID, cfg.fee_asset), pre.b(COLLECTOR_ID, cfg.fee_asset)) == want, "open_funds: the fee collector did not receive exactly the flow creation fee");
                 m.check(f.claimed == 0, "open_flow: new flow has a non-zero claimed amount");
             }
         }
